@@ -802,19 +802,64 @@ def struct_pack(it, fmt, values):
             it.raise_exc('struct.error', 'required argument is not an integer')
         lo, hi = (-(256 ** n) // 2, 256 ** n // 2 - 1) if signed else (0, 256 ** n - 1)
         t = int_term(v)
-        if p.branch(z3.Or(t < lo, t > hi)):
-            it.raise_exc('struct.error', 'argument out of range')
+        if not p.must_light(z3.And(t >= lo, t <= hi)):
+            if p.branch(z3.Or(t < lo, t > hi)):
+                it.raise_exc('struct.error', 'argument out of range')
         if signed:
             t = z3.If(t >= 0, t, t + 256 ** n)
             t = z3.simplify(t)
         if little and n > 1:
             parts.append(p.facts.le(n, t))
         else:
-            parts.append(p.facts.be(n, t))
+            bt = p.facts.be(n, t)
+            # the argument is in range on this path: |be_n(t)| = n and unbe_n(be_n(t)) = t
+            p.ghost.setdefault('_be_ok', {})[bt.get_id()] = (n, t)
+            parts.append(bt)
     res = b''
     for part in parts:
         res = it.binop(ast.Add(), res, part)
     return res
+
+
+def _structural_unpack(it, items, little, data):
+    """If `data` is syntactically the concatenation of in-range be_n(x) terms (and fixed-length
+    byte fields) matching the format field by field, the unpacked values are the x's:
+    unbe_n(be_n(x)) = x for x in range -- no solver call needed.  None if it does not align."""
+    p = it.p
+    ok = p.ghost.get('_be_ok', {})
+    parts = bytesops._flatten(bytes_term(data), p.defs)
+    out = []
+    i = 0
+    for kind, n, signed in items:
+        if kind == 'int':
+            if i >= len(parts) or little and n > 1:
+                return None
+            cert = ok.get(parts[i].get_id())
+            if cert is None or cert[0] != n:
+                return None
+            v = cert[1]
+            if signed:
+                v = z3.If(v >= 256 ** n // 2, v - 256 ** n, v)
+            cv = smt.as_concrete_int(v)
+            out.append(cv if cv is not None else v)
+            i += 1
+        else:
+            need = n
+            chunk = []
+            while need > 0:
+                if i >= len(parts):
+                    return None
+                sl = bytesops.static_len(it, parts[i])
+                if sl is None or sl > need:
+                    return None
+                chunk.append(parts[i])
+                need -= sl
+                i += 1
+            if kind == 's':
+                out.append(smt.concat(chunk))
+    if i != len(parts):
+        return None
+    return out
 
 
 def struct_unpack(it, fmt, data):
@@ -828,6 +873,9 @@ def struct_unpack(it, fmt, data):
             return tuple(_struct.unpack(fmt, data))
         except _struct.error as e:
             it.raise_exc('struct.error', str(e))
+    fast = _structural_unpack(it, items, little, data)
+    if fast is not None:
+        return tuple(fast)
     if p.branch(z3.Length(data) != size):
         it.raise_exc('struct.error', 'unpack requires a buffer of %d bytes' % size)
     out = []
